@@ -385,6 +385,42 @@ pub fn run(args: &Args) {
 			}
 		}
 	}
+	// a skipped field is filled by Default, also on the in-place path of a transparent newtype
+	{
+		struct DEl(El);
+		impl Default for DEl {
+			fn default() -> Self {
+				let id = LEDGER.with(|l| {
+					let mut l = l.borrow_mut();
+					l.next += 1;
+					let id = l.next;
+					l.constructed.push(id);
+					id
+				});
+				DEl(El { id })
+			}
+		}
+		#[derive(Decode)]
+		#[repr(transparent)]
+		struct TSk(#[codec(skip)] DEl, PhantomData<u8>);
+		macro_rules! skipped {
+			($t:ty, $n:expr, $name:expr) => {{
+				reset();
+				let res = catch_unwind(AssertUnwindSafe(|| <$t>::decode(&mut &[1u8, 1, 1][..]).map(drop).is_ok())).map_err(drop);
+				let (c, d) = LEDGER.with(|l| (l.borrow().constructed.clone(), l.borrow().dropped.clone()));
+				let mut ds = d.clone();
+				ds.sort();
+				cx_.stats.bump("skipped-field-in-place");
+				cx_.oracle.check(res == Ok(true) && c.len() == $n && ds == c, if ds.iter().any(|x| !c.contains(x)) { "drop-of-unconstructed-element" } else { "element-leaked" }, || {
+					format!("{}\tskipped field built by Default\tconstructed={:?}\tdropped={:?}\toutcome={:?}", $name, c, d, res)
+				});
+			}};
+		}
+		skipped!(TSk, 1, "transparent TSk(#[codec(skip)] DEl)");
+		skipped!(Box<TSk>, 1, "Box<transparent TSk(#[codec(skip)] DEl)>");
+		skipped!(Rc<TSk>, 1, "Rc<transparent TSk(#[codec(skip)] DEl)>");
+		skipped!([TSk; 4], 4, "[transparent TSk(#[codec(skip)] DEl);4]");
+	}
 	// the known finding F6: transparent struct with two fields, in-place path, failure in the
 	// zero-sized second field after the first needed drop
 	{
